@@ -21,11 +21,16 @@ PROP = {
             "and (a failed listen or a packet injected on the previous socket). Distinct = expression text / op-kind sequence with configuration.",
     "assumptions": ["fewer than 1024 undelivered packets are queued at any time (the receive queue is bounded by design and drops beyond that)",
                     "delivery from the previous socket is only demanded while no read deadline has expired (an expired deadline fills the bounded queue with timeout results)",
-                    "the harness drains the receive queue after Close so a recvLoop parked in its blocking timeout send can exit",
+                    "the harness empties the receive queue after Close so that a recvLoop parked in its blocking 'timeout result' send can exit (goroutines left after that are reported)",
+                    "packets injected at the exact virtual instant of a hop, or concurrently with hops (race variant), are only required not to be invented or duplicated; delivery is demanded for packets injected at quiescent points",
                     "sockets returned by ListenUDPFunc never block in WriteTo/Close/Set*"],
     "tests": [
         {"name": "TestVerifC19_ExprTable", "unit": UT, "kind": "plain"},
-        {"name": "TestVerifC19_ExprValid", "unit": UT, "quick": 30000, "thorough": 200000, "shards_thorough": 8},
-        {"name": "TestVerifC19_ExprStrings", "unit": UT, "quick": 30000, "thorough": 200000, "shards_thorough": 8},
+        {"name": "TestVerifC19_ExprValid", "unit": UT, "quick": 20000, "thorough": 200000, "shards_thorough": 8},
+        {"name": "TestVerifC19_ExprStrings", "unit": UT, "quick": 20000, "thorough": 200000, "shards_thorough": 8},
+        {"name": "TestVerifC19_ReadAfterClose", "unit": HOP, "kind": "plain"},
+        {"name": "TestVerifC19_ResolveAddr", "unit": HOP, "quick": 4000, "thorough": 40000, "shards_thorough": 4},
+        {"name": "TestVerifC19_Hop", "unit": HOP, "quick": 3000, "thorough": 25000, "shards_thorough": 12, "timeout_quick": 900},
+        {"name": "TestVerifC19_HopConcurrent", "unit": HOP, "race": True, "quick": 800, "thorough": 6000, "shards_thorough": 12, "timeout_quick": 900},
     ],
 }
